@@ -20,6 +20,8 @@ class VLoop(asyncio.SelectorEventLoop):
         super().__init__(selectors.SelectSelector())
         self._vt = 0.0
         self._ticks = 0
+        self.unretrieved = []
+        self.set_exception_handler(lambda lp, context: lp.unretrieved.append(context))   # orphan tasks: recorded, not printed
         sel = self._selector
         real_select = sel.select
         loop = self
@@ -85,7 +87,7 @@ class Conn:
     def send(self, data, delay=0.0):
         if delay > 0:
             self.smsc.loop.call_later(delay, self.send, data)
-        elif not self.reader.at_eof() and self.reader.exception() is None:
+        elif not self.reader._eof and self.reader.exception() is None:
             self.reader.feed_data(bytes(data))
 
     def eof(self, delay=0.0):
